@@ -222,9 +222,19 @@ Section Containers.
       if ((121 <=? x) && (x <=? 127)) || ((1280 <=? x) && (x <=? 1400)) then
         dbind (d_mia r) (fun '((indef, fs), r') => DOk ((x, None, indef, fs), r'))
       else if x =? 102 then
-        dbind (d_array r) (fun '(_, r1) =>
+        (* [constructor, fields]: a 2-element array, definite or indefinite (as repaired in
+           /repo commit becf41cb: the length is checked and the closing break is consumed) *)
+        dbind (d_array r) (fun '(l, r1) =>
+        if negb (match l with None => true | Some n => n =? 2 end) then DErr else
         dbind (d_u64 r1) (fun '(c, r2) =>
-        dbind (d_mia r2) (fun '((indef, fs), r') => DOk ((x, Some c, indef, fs), r'))))
+        dbind (d_mia r2) (fun '((indef, fs), r3) =>
+        match l with
+        | Some _ => DOk ((x, Some c, indef, fs), r3)
+        | None =>
+          (* d.datatype()? != Type::Break -> error; d.skip() on a break consumes that byte *)
+          dbind (d_datatype r3) (fun t =>
+            if ctype_eqb t TBreak then DOk ((x, Some c, indef, fs), tl r3) else DErr)
+        end)))
       else DErr).
 End Containers.
 
